@@ -26,9 +26,14 @@ type Case struct {
 	Res     *rt.Term   `json:"res"`
 	Nested  bool       `json:"nested,omitempty"`
 	ViaVar  bool       `json:"via_var,omitempty"` // the goal reaches the call through a variable bound beforehand
+	Inner   bool       `json:"inner,omitempty"`   // with ViaVar: only the part under the outermost ^ goes through the variable
 }
 
 func (c Case) call() *rt.Term {
+	if c.ViaVar && c.Inner && c.Goal.Is("^", 2) {
+		// the outer ^ is written in place, the rest of the goal (possibly with further ^) reaches it through a variable
+		return rt.C(",", rt.C("=", rt.V(60), c.Goal.A[1]), rt.C(c.Kind, c.Tmpl, rt.C("^", c.Goal.A[0], rt.V(60)), c.Res))
+	}
 	if c.ViaVar {
 		return rt.C(",", rt.C("=", rt.V(60), c.Goal), rt.C(c.Kind, c.Tmpl, rt.V(60), c.Res))
 	}
@@ -150,7 +155,8 @@ func genCase() *rapid.Generator[Case] {
 		}
 		c.Tmpl = tmpls[x.n(0, len(tmpls)-1, "tmpl")]()
 		c.Goal = goal
-		c.ViaVar = x.p(25, "viavar")
+		c.ViaVar = x.p(30, "viavar")
+		c.Inner = x.p(50, "innerviavar")
 		switch k := x.n(0, 9, "res"); {
 		case k < 7:
 			c.Res = rt.V(50)
@@ -291,6 +297,9 @@ func TestProp(t *testing.T) {
 		}
 		if c.ViaVar {
 			r.Label("goal_through_bound_variable")
+			if c.Inner && c.Goal.Is("^", 2) {
+				r.Label("inner_caret_goal_through_bound_variable")
+			}
 		}
 		if o.Ref.Ball != nil {
 			r.Label("raises:" + o.Ref.Ball.MaskErrorContext().String())
